@@ -146,7 +146,9 @@ Gen_Typed ==
             m == Meaning(G.t)
         IN /\ TKey(ty) \in DOMAIN m
            /\ ty.st \in 1..5
-           /\ IF ty.good = 1
+           /\ IF ty.good = 2
+              THEN m[TKey(ty)] = WideText(ty.wc) /\ InLang(ty.st, m[TKey(ty)]) /\ DLe(WideValue(ty.st, ty.wc), UIntMax)
+              ELSE IF ty.good = 1
               THEN m[TKey(ty)] = TypedText(ty.st, ty.c) /\ InLang(ty.st, m[TKey(ty)])
               ELSE ty.bi \in DOMAIN BadPool[ty.st] /\ m[TKey(ty)] = BadPool[ty.st][ty.bi] /\ ~InLang(ty.st, m[TKey(ty)])
 
@@ -155,10 +157,15 @@ Gen_Typed ==
 C16_TypedGood ==
     HasGen /\ E.rc = 0 => \A x \in DOMAIN G.typed :
         LET ty == G.typed[x] IN
-        ty.good = 1 =>
+        /\ ty.good = 1 =>
             /\ HasNode(E.after, TKey(ty))
             /\ LET nd == NodeAt(E.after, TKey(ty))
                IN nd.st = ty.st /\ nd.pv = TypedValue(ty.st, ty.c) /\ nd.pv = Denote(ty.st, TypedText(ty.st, ty.c))
+        \* wide values (2^31 .. 2^32 - 1): the decimal digits of the value delivered
+        /\ ty.good = 2 =>
+            /\ HasNode(E.after, TKey(ty))
+            /\ LET nd == NodeAt(E.after, TKey(ty))
+               IN nd.st = ty.st /\ nd.pvd = WideValue(ty.st, ty.wc) /\ nd.pvd = WideDenote(ty.st, WideText(ty.wc))
 
 (* "and an unparsable typed value is rejected leaving the previous value in force" *)
 C16_TypedBad ==
@@ -167,6 +174,7 @@ C16_TypedBad ==
         ty.good = 0 =>
             /\ HasNode(E.after, TKey(ty)) /\ HasNode(B.before, TKey(ty))
             /\ NodeAt(E.after, TKey(ty)).pv = NodeAt(B.before, TKey(ty)).pv
+            /\ NodeAt(E.after, TKey(ty)).pvd = NodeAt(B.before, TKey(ty)).pvd
 
 -------------------------------------------------------------------------------
 (* Not part of any contract (reported as DRIFT only): on inputs that were not rendered from
